@@ -1,5 +1,6 @@
 import PewProofs.Export
 import PewProofs.ExportVtk
+import PewProofs.ExportForeign
 
 /-! # C16 — property theorems (statements only depend on `PewModel.Export` and the hypothesis
 bundle `Clean` on the opaque number printer/parser) -/
@@ -50,6 +51,39 @@ theorem delimiters_agree (fmt : α → Str) (conv : Str → α) (hc : Clean fmt 
         normalise_idem])).1
   exact ⟨h1, by rw [h1]; exact text_roundtrip fmt conv hc [] (by simp) img c hr hcpos hcols⟩
 
+/-- **files written by other tools**: a file of the class `foreignFile` — every line indented by
+spaces, its cells padded with spaces and separated by any of `,` `;` tab, an optional comment at the
+end, terminated by `\n`, `\r\n`, a lone `\r` or (last line) nothing, blank and comment-only lines
+anywhere — loads to the image formed by the values of the lines that have cells.  Beyond `Clean`
+the converter must ignore spaces around a number (`float` does; trusted like `Clean.roundtrip`);
+`foreignOk` is the decidable well-formedness of the description (see its definition). -/
+theorem foreign_file_loads (fmt : α → Str) (conv : Str → α) (hc : Clean fmt conv)
+    (hpad : ∀ x a b, conv (spaces a ++ fmt x ++ spaces b) = x)
+    (ls : List (FLine α)) (hok : foreignOk fmt ls = true) (c : Nat)
+    (hr : foreignImage ls ≠ []) (hcols : ∀ row ∈ foreignImage ls, row.length = c) :
+    loadText conv 2 (foreignFile fmt ls) = some ([(foreignImage ls).length, c], (foreignImage ls).flatten) := by
+  have htbl := fieldRows_foreign fmt conv hc ls hok
+  have himg : ((ls.filter (fun l => !l.cells.isEmpty)).map (rowFields fmt)).map (·.map conv) = foreignImage ls := by
+    unfold foreignImage
+    rw [List.map_map]
+    apply List.map_congr_left
+    intro l _
+    exact rowFields_values fmt conv hpad l
+  have hlen : ((ls.filter (fun l => !l.cells.isEmpty)).map (rowFields fmt)).length = (foreignImage ls).length := by
+    simp [foreignImage]
+  rw [load_of_fieldRows conv _ _ c ?_ ?_ htbl, himg, hlen]
+  · intro e
+    apply hr
+    rw [← himg, e]
+    rfl
+  · intro r hrm
+    obtain ⟨l, hl, rfl⟩ := List.mem_map.mp hrm
+    have h1 : (rowFields fmt l).length = ((rowFields fmt l).map conv).length := by simp
+    rw [h1, rowFields_values fmt conv hpad l]
+    apply hcols
+    unfold foreignImage
+    exact List.mem_map.mpr ⟨l, hl, rfl⟩
+
 /-- regression note, not a property theorem: it records what commit 9e652ea repaired.  With
 `genfromtxt`'s default `ndmin = 0` a column of three values came back as a row (first conjunct, an
 evaluation of the shape rule); the second conjunct only restates that `shapeRule 2` keeps a
@@ -77,6 +111,31 @@ example : loadText convB 2 (saveWith fmtB [[';', '\t'], [',', ';']] [[true, fals
 
 example : loadText convB 2 "1;0\r\n0\t1".toList = loadText convB 2 "1,0\r\n0,1".toList :=
   (delimiter_choice_irrelevant convB 2 _ _ (by decide)).1
+
+/-- non-vacuity of `foreign_file_loads`: a comment line, a padded row ended by `\r\n`, a blank
+line ended by a lone `\r`, a row with a comment and no terminator -/
+def convB' : Str → Bool := fun s => convB (s.filter (· ≠ ' '))
+
+theorem clean_fmtB' : Clean fmtB convB' := ⟨by decide, by decide, by decide⟩
+
+theorem pad_fmtB' (x : Bool) (a b : Nat) : convB' (spaces a ++ fmtB x ++ spaces b) = x := by
+  have h : ∀ n, (spaces n).filter (· ≠ ' ') = [] := by
+    intro n
+    simp [spaces]
+  unfold convB'
+  rw [List.filter_append, List.filter_append, h, h]
+  cases x <;> decide
+
+def linesB : List (FLine Bool) :=
+  [ { indent := 0, cells := [], seps := [], comment := some " h;1".toList, eol := .lf },
+    { indent := 2, cells := [(0, true, 1), (1, false, 0)], seps := [';'], comment := none, eol := .crlf },
+    { indent := 1, cells := [], seps := [], comment := none, eol := .cr },
+    { indent := 0, cells := [(0, false, 0), (0, true, 2)], seps := ['\t'], comment := some "x".toList, eol := .eof } ]
+
+example : foreignFile fmtB linesB = "# h;1\n  1 ; 0\r\n \r0\t1  #x".toList := by decide
+
+example : loadText convB' 2 (foreignFile fmtB linesB) = some ([2, 2], [true, false, false, true]) :=
+  foreign_file_loads fmtB convB' clean_fmtB' pad_fmtB' linesB (by decide) 2 (by decide) (by decide)
 
 /-! the loader model on files `save` never writes (what `genfromtxt` does with them) -/
 
